@@ -363,8 +363,8 @@ impl StringDecoder for Utf8Decoder {
             .to_owned();
 
         // Update the cursor position
-        // The +1 is to skip the delimiter
-        *cursor += position + 1;
+        // The +1 is to skip the delimiter (if there was one before the end of the data)
+        *cursor += (position + 1).min(data.len());
 
         Ok(result)
     }
@@ -458,8 +458,8 @@ impl<B: ByteOrder> StringDecoder for Utf16Decoder<B> {
         let result = String::from_utf16(&paired_buf).map_err(|e| PacketBad.context(e))?;
 
         // Update the cursor position
-        // The +2 accounts for the delimiter
-        *cursor += position + 2;
+        // The +2 accounts for the delimiter (if there was one before the end of the data)
+        *cursor += (position + 2).min(data.len());
 
         Ok(result)
     }
